@@ -31,6 +31,8 @@ type capture struct {
 	reqs    []capReq
 	indexes map[string]string // host -> index.yaml content
 	redir   map[string]string // host+path -> absolute redirect target
+	// redirectTgz: when set, every archive request to another host is answered with a redirect to this URL
+	redirectTgz string
 	tgz     []byte
 }
 
@@ -44,6 +46,10 @@ func (c *capture) handler(w http.ResponseWriter, r *http.Request) {
 	host := r.Host
 	// Auth: the repository's credentials (user:secret), not credentials embedded in the URL itself
 	c.reqs = append(c.reqs, capReq{Scheme: scheme, Host: host, Path: r.URL.Path, Auth: r.Header.Get("Authorization") == "Basic dXNlcjpzZWNyZXQ="})
+	if c.redirectTgz != "" && strings.HasSuffix(r.URL.Path, ".tgz") && !strings.HasPrefix(c.redirectTgz, "http://"+host+"/") {
+		http.Redirect(w, r, c.redirectTgz, http.StatusFound)
+		return
+	}
 	if t, ok := c.redir[host+r.URL.Path]; ok {
 		http.Redirect(w, r, t, http.StatusFound)
 		return
@@ -151,6 +157,15 @@ func corrCreds(seed uint64, n int, tier string, out string, replay string) {
 		cross := ro["scheme"] != co["scheme"] || ro["host"] != co["host"]
 		rep.Count(cs, cross && !relative)
 		rep.Sample(cs)
+		// every sixth case the host that serves the archive answers with a redirect to an unrelated domain (a CDN):
+		// the request that follows the redirect carries no repository credentials
+		cp.mu.Lock()
+		cp.redirectTgz = ""
+		if i%6 == 3 {
+			cp.redirectTgz = "http://" + redirectHost + "/blob/foo-1.0.0.tgz"
+			rep.H("redirected")
+		}
+		cp.mu.Unlock()
 		switch i % 5 {
 		case 0:
 			credsGetter(m, rep, cp, r, repoURL, chartURL, passAll, seed, i)
@@ -166,6 +181,9 @@ func corrCreds(seed uint64, n int, tier string, out string, replay string) {
 	}
 	rep.Write(out, m)
 }
+
+// redirectHost: the unrelated domain archive requests are redirected to in the redirect cases
+const redirectHost = "cdn.unrelated.test"
 
 // relIndexURL: how a relative chart URL is spelled in the index
 var relIndexURL = "dl/foo-1.0.0.tgz"
@@ -186,6 +204,14 @@ func checkReqs(m *Model, rep *Report, path string, reqs []capReq, modelOpts []an
 	for _, q := range reqs {
 		if strings.HasSuffix(q.Path, "index.yaml") {
 			// the index is fetched from the repository itself: credentials expected there
+			continue
+		}
+		if q.Host == redirectHost {
+			// reached through a redirect only: outside the model (net/http's redirect policy); the property's clause
+			rep.H(path + ":after-redirect:" + map[bool]string{true: "auth", false: "noauth"}[q.Auth])
+			if q.Auth && !passAll {
+				rep.Issue(Issue{Kind: "monitor", Fingerprint: "C19:leak:redirect:" + path, What: fmt.Sprintf("%s: credentials of repository %s were sent to %s after a redirect to that unrelated domain", path, repoURL, q.Host), Case: cs, Impl: q, Seed: seed, Index: idx})
+			}
 			continue
 		}
 		href := map[string]any{"scheme": q.Scheme, "host": q.Host}
